@@ -37,6 +37,9 @@ class Plan(vloop.Script):
         return self.write_fail_after is not None and self.total_writes > self.write_fail_after
 
 
+RUNS = [0]
+
+
 def valid_packet(kind: str, i: int) -> bytes:
     msgs = cr.sample_messages(random.Random(3), 3)
     return cr.wire_packets(kind, [msgs[i]], random.Random(0), with_bad=False)[0][0]
@@ -99,7 +102,14 @@ def run(kind: str, plan: Plan, inject=None, status_cb="ok", t_end: float = T_END
             feed_valid(s, conn, p_pkt)
         s.at_time(t_end - 4.0, probe)
 
-    raw = sess.run(vloop.make_client_factory(kind, **(client_kwargs or {})), scenario, until=t_end, status_cb=status_cb)
+    # every fourth session has a second client object in the process (another gateway of another kind, busy connecting, being
+    # refused, reading and losing its link all the time): what it does is nobody's business but its own
+    RUNS[0] += 1
+    by = None
+    if RUNS[0] % 4 == 0:
+        bkind = vloop.CLIENTS[(RUNS[0] // 4) % 4]
+        by = (bkind, valid_packet(bkind, 1) * 3)
+    raw = sess.run(vloop.make_client_factory(kind, **(client_kwargs or {})), scenario, until=t_end, status_cb=status_cb, bystander=by)
     end = raw[-1]
     # facts the harness knows about the scenario (not verdicts)
     last_refuse = max([e["t"] for e in raw if e["e"] == "OpenResult" and e["r"] == "refuse"] + [0.0])
